@@ -496,12 +496,12 @@ impl BoxClient {
                 }
                 match (&self.held[*i % n], &self.held[*j % n]) {
                     (Held::U64(b1, s1), Held::U64(b2, s2)) => ok2(
-                        b_call(|| Ret::Text(format!("{:?}", (b1 == b2, b1 < b2, b1.partial_cmp(b2), b1.cmp(b2), h(b1), h(b2), b1 >= b2)))),
-                        s_call(|| Ret::Text(format!("{:?}", (s1 == s2, s1 < s2, s1.partial_cmp(s2), s1.cmp(s2), h(s1), h(s2), s1 >= s2)))),
+                        b_call(|| Ret::Text(format!("{:?}", (b1 == b2, b1 != b2, b1 < b2, b1 <= b2, b1 > b2, b1 >= b2, b1.partial_cmp(b2), b1.cmp(b2), h(b1), h(b2), b1.max(b2) == b2, b1.min(b2) == b1)))),
+                        s_call(|| Ret::Text(format!("{:?}", (s1 == s2, s1 != s2, s1 < s2, s1 <= s2, s1 > s2, s1 >= s2, s1.partial_cmp(s2), s1.cmp(s2), h(s1), h(s2), s1.max(s2) == s2, s1.min(s2) == s1)))),
                     ),
                     (Held::Str(b1, s1), Held::Str(b2, s2)) => ok2(
-                        b_call(|| Ret::Text(format!("{:?}", (b1 == b2, b1 < b2, b1.partial_cmp(b2), b1.cmp(b2), h(b1), h(b2), b1 <= b2)))),
-                        s_call(|| Ret::Text(format!("{:?}", (s1 == s2, s1 < s2, s1.partial_cmp(s2), s1.cmp(s2), h(s1), h(s2), s1 <= s2)))),
+                        b_call(|| Ret::Text(format!("{:?}", (b1 == b2, b1 != b2, b1 < b2, b1 <= b2, b1 > b2, b1 >= b2, b1.partial_cmp(b2), b1.cmp(b2), h(b1), h(b2))))),
+                        s_call(|| Ret::Text(format!("{:?}", (s1 == s2, s1 != s2, s1 < s2, s1 <= s2, s1 > s2, s1 >= s2, s1.partial_cmp(s2), s1.cmp(s2), h(s1), h(s2))))),
                     ),
                     (Held::Tr(b1, s1), Held::Tr(b2, s2)) => ok2(
                         b_call(|| Ret::Text(format!("{:?}", (b1 == b2, h(b1), h(b2))))),
